@@ -486,32 +486,21 @@ func (m *Machine) reflectIntrinsic(key string, args []Value, k func(Value)) bool
 		k(&ReflectMapIter{m: mo, pos: -1})
 	case "(*reflect.MapIter).Next":
 		it := args[0].(*ReflectMapIter)
-		found := false
-		if it.m != nil {
-			for p := it.pos + 1; p < len(it.m.entries); p++ {
-				if !it.m.entries[p].deleted {
-					it.pos = p
-					found = true
-					break
-				}
-			}
-			if !found {
-				it.pos = len(it.m.entries)
-			}
-		}
-		k(m.tt.Bool(found))
+		it.cur = it.mc.next(it.m)
+		it.pos = 0
+		k(m.tt.Bool(it.cur != nil))
 	case "(*reflect.MapIter).Key":
 		it := args[0].(*ReflectMapIter)
-		if it.m == nil || it.pos < 0 || it.pos >= len(it.m.entries) {
+		if it.cur == nil {
 			m.rtPanic("reflect")
 		}
-		k(&ReflectVal{v: it.m.entries[it.pos].k, t: it.m.kt})
+		k(&ReflectVal{v: it.cur.k, t: it.m.kt})
 	case "(*reflect.MapIter).Value":
 		it := args[0].(*ReflectMapIter)
-		if it.m == nil || it.pos < 0 || it.pos >= len(it.m.entries) {
+		if it.cur == nil {
 			m.rtPanic("reflect")
 		}
-		k(&ReflectVal{v: it.m.entries[it.pos].v, t: it.m.vt})
+		k(&ReflectVal{v: it.cur.v, t: it.m.vt})
 	case "(reflect.Value).Interface":
 		rv := args[0].(*ReflectVal)
 		if _, isI := rv.t.Underlying().(*types.Interface); isI {
